@@ -88,6 +88,11 @@ def jobs(tier):
              scope=['hash_f', 'eq_f', 'free_f', 'probe'], no_standard_checks=False)
     hj.strict_reach = False
     J.append(hj)
+    rj = Job('htab.rebuild[bounded 2 slots]', 'harness/c19_htab2.c', 'h_htab_rebuild', defines=ND, unwind=10, kind='bounded', timeout=900,
+             solver='cadical', bound='full table of 2 element slots / 4 index entries (0..2 live elements, tombstones), one INSERT or REPLACE that grows and rebuilds the table',
+             scope=['hash_f', 'eq_f', 'free_f', 'probe'], object_bits=10)
+    rj.strict_reach = False
+    J.append(rj)
     return J
 
 
